@@ -134,12 +134,12 @@ pub fn define_language(input: TokenStream1) -> TokenStream1 {
                 let SyntaxElem::String(op) = elems.get(0)? else { return None };
                 match &**op {
                     #(#from_syntax_arms1),*
-                    _ => {
-                        #(#from_syntax_arms2)*
-
-                        None
-                    },
+                    _ => {},
                 }
+                // Not a node of a named operator: a payload variant, also when the payload is spelled like an operator.
+                #(#from_syntax_arms2)*
+
+                None
             }
 
             fn slots(&self) -> slotted_egraphs::SmallHashSet<Slot> {
@@ -306,18 +306,23 @@ fn produce_from_syntax1(name: &Ident, e: &Option<Expr>, v: &Variant) -> Option<T
 
     Some(quote! {
         #e => {
-            let mut children = &elems[1..];
-            let mut rest = children;
-            #(
-                let #fields = (0..=children.len()).filter_map(|n| {
-                    let a = &children[..n];
-                    rest = &children[n..];
+            let node = (|| {
+                let mut children = &elems[1..];
+                let mut rest = children;
+                #(
+                    let #fields = (0..=children.len()).filter_map(|n| {
+                        let a = &children[..n];
+                        rest = &children[n..];
 
-                    <#types>::from_syntax(a)
-                }).next()?;
-                children = rest;
-            )*
-            Some(#name::#variant_name(#(#fields),*))
+                        <#types>::from_syntax(a)
+                    }).next()?;
+                    children = rest;
+                )*
+                Some(#name::#variant_name(#(#fields),*))
+            })();
+            if node.is_some() {
+                return node;
+            }
         }
     })
 }
